@@ -127,6 +127,26 @@ def watch_edit_during_failing_build_case(pr):
     return None
 
 
+def watch_fail_while_other_dep_building_case(pr):
+    """watch mode: d -> [b, slow]; b's input is replaced by a failing version while slow is still building: d stays blocked"""
+    pr.write("bsrc/in.txt", "good")
+    ts = {"b": {"input": [{"paths": ["bsrc"]}], "build": 'echo "s b" >> "$ZLOG"\nif [ "$(cat bsrc/in.txt)" = bad ]; then echo "f b" >> "$ZLOG"; exit 3; fi\necho "e b" >> "$ZLOG"'},
+          "slow": {"build": logging_build("slow", sleep=3.0)}, "d": {"dependencies": ["b", "slow"], "build": logging_build("d")}}
+    pr.write("zinoma.yml", yml(ts))
+    p = pr.spawn("--watch", "d")
+    if not pr.wait_for(lambda: "e b" in pr.log() and "s slow" in pr.log(), WAIT):
+        return None
+    time.sleep(0.3)
+    pr.edit("bsrc/in.txt", "bad")            # while slow is still sleeping and d has not started yet
+    if not pr.wait_for(lambda: "f b" in pr.log(), WAIT):
+        return None
+    pr.wait_for(lambda: "e slow" in pr.log(), WAIT)
+    time.sleep(2.0)
+    if "s d" in pr.log():
+        return {"property": ["C07", "C01"], "expected": "b was invalidated and its rebuild failed while d was still waiting for slow: d stays blocked", "observed": "log %s" % pr.log(), "output": pr.output_of(p)[-400:]}
+    return None
+
+
 def watch_failed_dep_late_requester_case(pr):
     """watch mode: dep fails at once; `late` reaches it only through a long chain of aggregates, so its request arrives
     after the failure - it must not be told that dep is ready"""
@@ -252,7 +272,7 @@ def wide_failure_case(pr):
     pr.files["zinoma.yml"] = "top -> [long (sleep 120), bad (exit 1 after 0.2 s), g0..g39]; g_i -> 80 leaves `true`"
     p = pr.spawn("top")
     if not pr.wait_exit(p, 40):
-        return {"property": "C10", "expected": "a failure while thousands of messages are in flight still ends the run (40 s allowed)", "observed": "still running after 40 s", "output": pr.output_of(p)[-400:]}
+        return {"property": ["C10", "C04"], "expected": "a failure while thousands of messages are in flight still ends the run (40 s allowed)", "observed": "still running after 40 s", "output": pr.output_of(p)[-400:]}
     time.sleep(0.2)
     left = [q for q in _pids(pr, "long") if _alive(q)]
     if left:
@@ -284,6 +304,29 @@ def sigterm_during_wide_run_case(pr):
     left = [q for q in _pids(pr, "long") if _alive(q)]
     if left:
         return {"property": "C10", "expected": "no spawned shell left behind", "observed": "pid(s) %s alive" % left}
+    return None
+
+
+def watch_edit_long_build_then_sigterm_case(pr):
+    """watch mode: the input changes while a long build runs, then zinoma is told to stop: no build shell survives"""
+    pr.write("src/in.txt", "v0")
+    t = {"input": [{"paths": ["src"]}], "build": 'echo "pid t $$" >> "$ZLOG"\nsleep 40\necho "e t" >> "$ZLOG"'}
+    pr.write("zinoma.yml", yml({"t": t}))
+    p = pr.spawn("--watch", "t")
+    if not pr.wait_for(lambda: _pids(pr, "t"), WAIT):
+        return None
+    time.sleep(0.4)
+    pr.edit("src/in.txt", "v1")
+    time.sleep(1.0)
+    pr.edit("src/in.txt", "v2")
+    time.sleep(1.0)
+    os.kill(p.pid, signal.SIGTERM)
+    if not pr.wait_exit(p, 10):
+        return {"property": "C10", "expected": "SIGTERM ends zinoma promptly", "observed": "still running after 10 s", "output": pr.output_of(p)[-300:]}
+    time.sleep(0.3)
+    left = [q for q in _pids(pr, "t") if _alive(q)]
+    if left:
+        return {"property": "C10", "expected": "every build shell spawned (%d in all) has been killed and reaped when zinoma exits" % len(_pids(pr, "t")), "observed": "shell pid(s) %s still alive" % left, "output": pr.output_of(p)[-300:]}
     return None
 
 
@@ -531,6 +574,7 @@ def cases(seed, tier="quick"):
         C("watch-chain", watch_chain_case, "dependency's rebuilt outputs re-run the consumer, clean tree at start"),
         C("watch-failure-keeps-watching", watch_failure_case, "failure in watch mode: reported, keeps watching"),
         C("watch-edit-during-failing-build", watch_edit_during_failing_build_case, "change during a failing build is not forgotten"),
+        C("watch-fail-while-other-dep-building", watch_fail_while_other_dep_building_case, "a dependency fails its rebuild while the dependent waits for another one"),
         C("watch-failed-dep-late-requester", watch_failed_dep_late_requester_case, "a late requester of a failed dependency is not acknowledged"),
         C("watcher-filter", watcher_filter_case, "irrelevant changes never trigger; unusual names do not stop the watcher; nested filtered path and removals trigger"),
         C("sigterm-during-build", signal_during_build_case(signal.SIGTERM, False), "SIGTERM during a 60 s build"),
@@ -539,6 +583,7 @@ def cases(seed, tier="quick"):
         C("failure-with-running-sibling", failure_with_running_sibling_case, "failed target while a sibling builds"),
         C("wide-failure", wide_failure_case, "failure with thousands of messages in flight"),
         C("many-roots", many_roots_case, "100 targets on the command line"),
+        C("watch-edit-long-build-then-sigterm", watch_edit_long_build_then_sigterm_case, "edits during a long build, then SIGTERM"),
         C("sigterm-during-wide-run", sigterm_during_wide_run_case, "SIGTERM with many messages in flight"),
         C("service-requested", service_requested_case(False), "requested service keeps zinoma alive, stopped at SIGTERM"),
         C("service-requested-via-aggregate", service_requested_case(True), "service requested through an aggregate"),
